@@ -2,12 +2,18 @@ import MJ.Model.Serde
 import MJ.Model.Json
 import MJ.Model.ValueSer
 import MJ.Model.JsonSer
+import MJ.Model.SerdeValue
+import MJ.Model.SerdeArg
 /-! Line driver for C16.
 
   rt <shape> ; <data>             → `<value canon>\t<ok data canon|err|?>`
   x <shape> ; <data> ; <shape2>   → same, deserialising with `shape2`
   json <mode> <value desc>\t<impl hex> → `<hex of model text>|refuse|?` `\t` `back:…` `\t` `impl:same|perm|differs|noparse`
   jparse <hex>                    → hex of the string the Lean JSON string parser reads from the text
+  buf <shape> ; <data>            → `<ok data canon|err|?>` through the buffered read path (`de s (normV (ser s d))`)
+  arg <form> <shape> ; <data>     → `<canon of the argument>\t<ok data canon|err|?>` (`argConv`; the forms are told apart by the check)
+  vv <mode> <value desc>          → `<canon of reval v|err|?>` (modes self / selfref / field), `-` otherwise
+  pp <b1|e> <pads>                → `<number of strings>\t<FNV-1a hash of the model's tojson outputs>`
   other lines                     → `-`
 -/
 open MJ.Serde MJ.Json MJ.ValueSer MJ.JsonSer
@@ -163,13 +169,12 @@ partial def vText : V → String
   | .invalid => "X"
 end
 
-def isNaN32 (b : Nat) : Bool := b / 8388608 % 256 == 255 && b % 8388608 != 0
 
 mutual
 partial def dText : D → String
   | .bool b => if b then "T" else "F"
   | .int i => s!"i{i}"
-  | .f32 b => if isNaN32 b then "fNaN" else s!"f{b}"
+  | .f32 b => if isSNaN32 b then "fNaN" else s!"f{b}"
   | .f64 b => s!"d{b}"
   | .char c => s!"c{c.toNat}"
   | .str s => "s" ++ hexOfStr s
@@ -314,6 +319,8 @@ def handleSer (btree : Bool) (desc : String) : String :=
 def handleLde (btree : Bool) (body : String) : String :=
   match body.splitOn " ; " with
   | [v, s] =>
+    -- (plain objects are dynamic objects for the deserializer, not the text they serialise to)
+    if (toks v).any (·.startsWith "O") then "?" else
     match pLV (toks v), pShape (toks s) with
     | some (lv, []), some (shape, []) => rText (de shape (toV false (normLV btree lv)))
     | _, _ => "bad-case"
@@ -339,7 +346,11 @@ def handleJson (btree : Bool) (mode : String) (desc : String) (impl : String) : 
       | "tojson_true" => some (.pretty MJ.Gen.tojsonTrueIndent, true)
       | "tojson_kw3" => some (.pretty 3, true)
       | "tojson_0" => some (.pretty 0, true)
-      | "auto_json" | "auto_js" | "sj_string" | "auto_write" => some (.compact, false)
+      | "tojson_false" => some (.jinja, true)
+      | "tojson_kwtrue" => some (.pretty MJ.Gen.tojsonTrueIndent, true)
+      | "tojson_8" => some (.pretty 8, true)
+      | "auto_json" | "auto_js" | "sj_string" | "auto_write" | "auto_e" | "auto_escape_block" | "auto_yaml"
+      | "auto_json_j2" | "auto_fmt" | "auto_cb" => some (.compact, false)
       | "sj_pretty" => some (.pretty 2, false)
       | _ => none
     match style with
@@ -390,6 +401,76 @@ def handleJparse (h : String) : String :=
     | some j => "ok " ++ hexOfStr (writeJ .compact j)
     | none => "noparse"
 
+def handleBuf (body : String) : String :=
+  match body.splitOn " ; " with
+  | [s, d] =>
+    match pShape (toks s), pData (toks d) with
+    | some (shape, []), some (data, []) => rText (de shape (normV (ser shape data)))
+    | _, _ => "bad-case"
+  | _ => "bad-case"
+
+def handleArg (body : String) : String :=
+  match body.splitOn " ; " with
+  | [fs, d] =>
+    match toks fs with
+    | _form :: st =>
+      match pShape st, pData (toks d) with
+      | some (shape, []), some (data, []) =>
+        let v := ser shape data
+        let r := match argConv shape (.value v) with
+          | .ok dd => "ok " ++ dText dd
+          | .error .unmodelled => "?"
+          | .error _ => "err"
+        s!"{vText v}\t{r}"
+      | _, _ => "bad-case\tbad-case"
+    | [] => "bad-case\tbad-case"
+  | _ => "bad-case\tbad-case"
+
+def handleVv (btree : Bool) (mode : String) (desc : String) : String :=
+  -- (plain objects are dynamic objects here — `reval (.obj _)` is outside the model — although the value
+  -- descriptions read them as the text they serialise to)
+  if (toks desc).any (·.startsWith "O") then "?"
+  else if mode == "self" || mode == "selfref" || mode == "field" then
+    match pLV (toks desc) with
+    | some (lv, []) =>
+      match reval (toV false (normLV btree lv)) with
+      | .ok w => vText w
+      | .error .err => "err"
+      | .error .unmodelled => "?"
+    | _ => "bad-case"
+  else "-"
+
+/-! ### the post-processing of `tojson` on the exhaustive family of the harness -/
+
+def fnvStep (h : UInt64) (b : UInt64) : UInt64 := (h ^^^ b) * 1099511628211
+
+def fnvText (h : UInt64) (t : List Char) : UInt64 :=
+  fnvStep (t.foldl (fun acc c => fnvStep acc (UInt64.ofNat c.toNat)) h) 255
+
+def ppSpecials : List Char := ['<', '>', '&', '\'']
+def ppTails : List (List Char) := [[], ['>', '\'', '&', '<']]
+
+def handlePp (body : String) : String :=
+  match toks body with
+  | [b1s, padss] =>
+    let pads : List Nat := (padss.splitOn ",").filterMap String.toNat?
+    let prefixes : List (List Char) :=
+      if b1s == "e" then [[]]
+      else if b1s.endsWith "." then
+        match (b1s.dropEnd 1).toString.toNat? with
+        | some b => [[Char.ofNat b]]
+        | none => []
+      else match b1s.toNat? with
+        | some b => [Char.ofNat b] :: (List.range 128).map fun c => [Char.ofNat b, Char.ofNat c]
+        | none => []
+    let strings : List (List Char) :=
+      prefixes.flatMap fun p => pads.flatMap fun pad => ppSpecials.flatMap fun sp => ppTails.map fun tl =>
+        p ++ List.replicate pad 'x' ++ [sp] ++ tl
+    let h := strings.foldl (fun acc s => fnvText acc (tojson (writeStr s))) 14695981039346656037
+    let hex := String.ofList ((List.range 16).reverse.map fun i => hexDigit ((h.toNat / 16 ^ i) % 16))
+    s!"{strings.length}\t{hex}"
+  | _ => "bad-case\tbad-case"
+
 def handle (btree : Bool) (line : String) : String :=
   let fields := line.splitOn "\t"
   let case := fields.head!
@@ -403,6 +484,13 @@ def handle (btree : Bool) (line : String) : String :=
   else if case.startsWith "ser " then handleSer btree (case.drop 4).toString
   else if case.startsWith "lde " then handleLde btree (case.drop 4).toString
   else if case.startsWith "jparse " then handleJparse (case.drop 7).toString
+  else if case.startsWith "buf " then handleBuf (case.drop 4).toString
+  else if case.startsWith "arg " then handleArg (case.drop 4).toString
+  else if case.startsWith "vv " then
+    match (case.drop 3).toString.splitOn " " with
+    | mode :: rest => handleVv btree mode (" ".intercalate rest)
+    | [] => "bad-case"
+  else if case.startsWith "pp " then handlePp (case.drop 3).toString
   else "-"
 
 partial def loop (btree : Bool) (h : IO.FS.Stream) (out : IO.FS.Stream) : IO Unit := do
